@@ -46,8 +46,10 @@ def batches(draw):
         # late changes: notations registered on the root (modules of one process then print with different notation sets) and
         # a module imported last; the same description is also serialised once *before* these changes and again after them
         # (same object), which must give the files of a fresh build
+        from lib import histories as H_
+        used = sorted(notations.label_of(n_) for n_ in H_.pool()[0] if n_.arity >= 1)   # the notations generated patterns are written with
         labels = sorted(l for l, n_ in notations.registry()[1].items() if n_.arity <= 3 and '#' not in l)
-        desc['extra_notations'] = draw(st.lists(st.sampled_from(labels), max_size=4, unique=True))
+        desc['extra_notations'] = draw(st.lists(st.sampled_from(used + labels), max_size=4, unique=True))
         if draw(st.booleans()):
             desc['late_import'] = {'axioms': [gens.sugared_to_json(MD.draw_axiom(draw, MD.sym_cfg(['a', 'late']), 1)) for _ in range(draw(st.integers(1, 2)))]}
         for fmt in ('binary', 'pretty'):
@@ -56,6 +58,12 @@ def batches(draw):
                 jobs.append({'id': jid, 'kind': 'module', 'desc': desc, 'fmt': fmt, 'optimize': opt})
                 txt = json.dumps(desc)
                 meta[jid] = {'nt': txt.count('"y"') >= 2 and txt.count('"m"') >= 2, 'cls': ['module', fmt, 'optimize' if opt else 'plain']}
+                if fmt == 'pretty' and not opt:
+                    # the same module with the complementary set of registered notations, printed in the same process: what one
+                    # of them prints must not leak into the other (each is compared with itself across processes and job orders)
+                    alt = dict(desc, extra_notations=[l for l in used if l not in desc['extra_notations']])
+                    jobs.append({'id': jid + '-altnot', 'kind': 'module', 'desc': alt, 'fmt': fmt, 'optimize': opt})
+                    meta[jid + '-altnot'] = {'nt': True, 'cls': ['module', fmt, 'same-module-other-notation-set']}
                 if desc.get('late_import') or desc['extra_notations']:
                     jobs.append({'id': jid + '-grown', 'kind': 'module', 'desc': desc, 'fmt': fmt, 'optimize': opt, 'grow': True, 'same_as': jid})
                     meta[jid + '-grown'] = {'nt': True, 'cls': ['module', fmt, 'serialised-before-and-after-growing']}
